@@ -267,7 +267,7 @@ def check_write(prop, tier, seed):
             # the verdict is T's; only if T accepts every recorded trace does a dead driver make the run undecided
             fr_failed = ex
         # ---- 4. trace validation: the only source of verdicts
-        ntr, v = validate_all(work, alltraces, T_MON[prop])
+        ntr, v = validate_all(work, alltraces, T_MON[prop], chunks=4 if tier == "quick" else 12)
         cov["traces_validated_against_impl"] = ntr
         if v:
             violations += 1
